@@ -93,7 +93,14 @@ impl GarbageCollector {
                     let size =
                         usize::try_from(get_int(&tensor, "_size").unwrap_or(0).max(0)).unwrap_or(0);
 
-                    if self.store.delete(&chunk_key).is_ok() {
+                    // A writer may be deduplicating against this chunk right now: decide
+                    // under the chunk's lock, on the count as it is now.
+                    let _guard = lock_chunk(&chunk_key);
+                    let still_unreferenced = self
+                        .store
+                        .get(&chunk_key)
+                        .is_ok_and(|t| get_int(&t, "_refs").unwrap_or(0) == 0);
+                    if still_unreferenced && self.store.delete(&chunk_key).is_ok() {
                         deleted += 1;
                         freed_bytes += size;
                     }
@@ -173,6 +180,7 @@ impl GarbageCollector {
 ///
 /// Returns an error if the store operation fails.
 pub fn decrement_chunk_refs(store: &TensorStore, chunk_key: &str) -> Result<()> {
+    let _guard = lock_chunk(chunk_key);
     if let Ok(mut tensor) = store.get(chunk_key) {
         #[cfg(neumann_verif)]
         tensor_store::verif_hooks::yield_point("blob.refs.rmw");
@@ -192,6 +200,8 @@ pub fn decrement_chunk_refs(store: &TensorStore, chunk_key: &str) -> Result<()> 
 /// # Errors
 ///
 /// Returns an error if the store operation fails.
+///
+/// The caller holds the chunk's lock (`lock_chunk`), taken before it looked the chunk up.
 pub fn increment_chunk_refs(store: &TensorStore, chunk_key: &str) -> Result<()> {
     if let Ok(mut tensor) = store.get(chunk_key) {
         #[cfg(neumann_verif)]
@@ -204,6 +214,25 @@ pub fn increment_chunk_refs(store: &TensorStore, chunk_key: &str) -> Result<()> 
         store.put(chunk_key, tensor)?;
     }
     Ok(())
+}
+
+/// Number of lock stripes for chunk records.
+const CHUNK_LOCK_STRIPES: usize = 64;
+
+static CHUNK_LOCKS: [std::sync::Mutex<()>; CHUNK_LOCK_STRIPES] =
+    [const { std::sync::Mutex::new(()) }; CHUNK_LOCK_STRIPES];
+
+/// Serialises every read-modify-write of one chunk record (reference counting, the
+/// exists-then-create of deduplication, collection of an unreferenced chunk).
+pub(crate) fn lock_chunk(chunk_key: &str) -> std::sync::MutexGuard<'static, ()> {
+    use std::hash::{Hash, Hasher};
+    let mut hasher = std::collections::hash_map::DefaultHasher::new();
+    chunk_key.hash(&mut hasher);
+    #[allow(clippy::cast_possible_truncation)] // stripe index
+    let stripe = (hasher.finish() as usize) % CHUNK_LOCK_STRIPES;
+    CHUNK_LOCKS[stripe]
+        .lock()
+        .unwrap_or_else(std::sync::PoisonError::into_inner)
 }
 
 fn current_timestamp() -> u64 {
